@@ -14,7 +14,7 @@ import (
 
 func init() {
 	Registry["C01"] = Set{
-		Explanation: "Decides the state-word protocol that serialises callbacks, for the process word and the meta-process word, on every transition site and every callback invocation site of the current source: P1 the word becomes Running only by compare-and-swap from Sleep (or back from WaitResponse inside the function that entered it); P2 it becomes Sleep only by the runner's own CAS or by the initial store that precedes publication; P3 every ProcessRun / HandleMessage / HandleCall / HandleInspect invocation is reached only while the executing goroutine holds the token (typestate over the SSA control-flow graph with edge effects of CAS/Swap results), and the runner goroutine is started only on the success edge of the acquisition; P5 every teardown call (unregister, ProcessTerminate / Terminate) is reached only as the single elected finaliser — swap to Terminated with the old value tested — and an outsider (Kill, meta start) may finalise only when the old state excludes a live runner (enum value sets refined along switch/if edges); P6 the wait transitions of a process are not reachable from methods of its meta processes (foreign goroutines). Together these are the mutual-exclusion argument for callbacks; each is necessary. Added while probing: P7 every ProcessBehavior callback of the act behaviours runs only below ProcessRun/ProcessInit/ProcessTerminate (call-graph rule), so P3 extends to user handlers.",
+		Explanation: "Decides the state-word protocol that serialises callbacks, for the process word and the meta-process word, on every transition site and every callback invocation site of the current source: P1 the word becomes Running only by compare-and-swap from Sleep (or back from WaitResponse inside the function that entered it); P2 it becomes Sleep only by the runner's own CAS or by the initial store that precedes publication; P3 every ProcessRun / HandleMessage / HandleCall / HandleInspect invocation is reached only while the executing goroutine holds the token (typestate over the SSA control-flow graph with edge effects of CAS/Swap results), and the runner goroutine is started only on the success edge of the acquisition; P5 every teardown call (unregister, ProcessTerminate / Terminate) is reached only as the single elected finaliser — swap to Terminated with the old value tested — and an outsider (Kill, meta start) may finalise only when the old state excludes a live runner (enum value sets refined along switch/if edges); P6 the wait transitions of a process are not reachable from methods of its meta processes (foreign goroutines). Together these are the mutual-exclusion argument for callbacks; each is necessary. Hand-over form of P5 (meta word, after fix 8acc9b1): a teardown that sits in a wrapper behind a once gate (CAS 0->1 on a field with no other writer: at most once per object, also when the Terminate callback panics into the recover handler) may be started by the token holder once the word is Terminated (store/swap dominates, or the failure edge of the release CAS), or by an outsider whose swap found Sleep; swapped-out values are refined through value-preserving conversions and switch forms. Added while probing: P7 every ProcessBehavior callback of the act behaviours runs only below ProcessRun/ProcessInit/ProcessTerminate (call-graph rule), so P3 extends to user handlers.",
 		NotDecided: []string{
 			"that user behaviours do not invoke their own callbacks from goroutines they start",
 			"goroutine fairness / progress",
@@ -153,7 +153,7 @@ func runC01(p *load.Program, r *core.Report) {
 	r.Floor("C01m.P1", 2)
 	r.Floor("C01m.P2", 2)
 	r.Floor("C01m.P3", 4)
-	r.Floor("C01m.P5", 4)
+	r.Floor("C01m.P5", 5)
 	c01Init(a, r)
 	c01P6(a, r)
 	c01P7(a, r)
